@@ -48,7 +48,11 @@ func ApplyUpdate(orig, update *unstructured.Unstructured) (*unstructured.Unstruc
 	}
 
 	// prevent setting last applied values in the new object
-	nullifyLastAppliedAnnotation(update)
+	// (work on a copy: the caller's desired object must not be modified)
+	if _, has := update.GetAnnotations()[dynamicapply.LastAppliedAnnotation]; has {
+		update = update.DeepCopy()
+		nullifyLastAppliedAnnotation(update)
+	}
 
 	newObj := &unstructured.Unstructured{}
 	newObj.Object, err = dynamicapply.Merge(orig.UnstructuredContent(), lastApplied, update.UnstructuredContent())
